@@ -1158,6 +1158,17 @@ func genC10(g *G, sc *Scenario, tier string, seed uint64) {
 	cfg := jobConfig("job1", map[string]any{"Type": "DatasetSource", "Name": "srcA"}, map[string]any{"Type": "DatasetSink", "Name": "sink"},
 		map[string]any{"Type": "JavascriptTransform", "Code": jsTransform(variant), "Parallelism": par}, jobType, batch)
 	cfg["_variant"], cfg["_parallelism"] = variant, par
+	viaHTTP := g.P(0.2)
+	if viaHTTP {
+		// the transform is a service behind an HttpTransform; its answers may be broken off
+		if variant == "append" {
+			variant = "create"
+		}
+		par = 1
+		tr := map[string]any{"Type": "HttpTransform", "Url": "http://xf.sim/transform?v=" + variant, "SupportContext": g.P(0.4), "TimeOut": 2.0}
+		cfg = jobConfig("job1", map[string]any{"Type": "DatasetSource", "Name": "srcA"}, map[string]any{"Type": "DatasetSink", "Name": "sink"}, tr, jobType, batch)
+		cfg["_variant"], cfg["_parallelism"] = variant, par
+	}
 	sc.Ops = append(sc.Ops, Op{K: "addJob", M: cfg})
 	mk := func(i int) Ent {
 		e := Ent{"id": fmt.Sprintf("%sx%03d", MkE, i), "props": map[string]any{MkS + "n": float64(i)}, "refs": map[string]any{}}
@@ -1185,13 +1196,24 @@ func genC10(g *G, sc *Scenario, tier string, seed uint64) {
 			// store in chunks so that a source write is not limited by anything
 			sc.Ops = append(sc.Ops, Op{K: "batch", DS: "srcA", Ents: ents})
 		}
+		if viaHTTP && i > 0 && g.P(0.5) {
+			// the service's answer to one of the run's requests is broken off, fails or comes too late
+			n := len(ents)
+			if jobType == "fullsync" {
+				n = i
+			}
+			if n > 0 {
+				kind := g.Pick([]string{"cutBoundary", "cutBoundary", "cutBoundaryErr", "cutAfterComma", "cutMid", "empty", "status", "connErr", "slow"})
+				sc.Ops = append(sc.Ops, Op{K: "run", S: "job1", DS: jobType, M: map[string]any{"httpFault": map[string]any{"at": g.Range(1, (n+batch-1)/batch), "kind": kind}}})
+			}
+		}
 		if len(ents) >= 2 && g.P(0.2) {
 			// the job is killed while a transform worker is starting; the run after it has to make up for it
 			sc.Ops = append(sc.Ops, Op{K: "run", S: "job1", DS: jobType, M: map[string]any{"killTransformAt": g.Range(1, len(ents))}})
 		}
 		sc.Ops = append(sc.Ops, Op{K: "run", S: "job1", DS: jobType, N: 1})
 	}
-	sc.Note = fmt.Sprintf("cell count=%d batch=%d parallelism=%d %s %s", count, batch, par, jobType, variant)
+	sc.Note = fmt.Sprintf("cell count=%d batch=%d parallelism=%d %s %s http=%v", count, batch, par, jobType, variant, viaHTTP)
 }
 
 // genC17 enumerates, by seed index, every subset of rejected entities for batches of 1-6
